@@ -53,8 +53,19 @@ check("C14", "model_checking",
       "TLA+ reference grammar vs scanner transcription (TLC exhaustive over line-kind sequences), exported cases replayed, TLC trace validation",
       "DESIGN.md section 8 (C14)")
 
+check("C01", "model_checking",
+      "Pacer.tla transcribes ConstantPacer.Pace exactly and closes the loop around it with arbitrary stalls; TLC explores every stall history for "
+      "all small parameter sets (negative, zero, overflow edge with a small MaxInt) and checks Upper, Lower, WaitOnlyWhenAhead, StopRules, NoWrap, "
+      "and that both historic defects violate them. Apalache proves the arithmetic clauses for the whole int64/uint64 range and checks recorded real "
+      "results at extreme points against the transcription. Closed-loop runs of the real constant, sine and linear pacers over the parameter grids "
+      "under three stall histories are validated by TLC (BigNat arithmetic; sine/linear against schedule bounds from the closed-form integral).",
+      "sine/linear schedule values come from the driver's float64 evaluation of the documented integral; linear pacer restricted to its sane domain; "
+      "Apalache/Z3 trusted for the 64-bit arithmetic",
+      "TLA+ transcription + closed-loop contract (TLC exhaustive), Apalache symbolic int64 check, TLC trace validation of closed-loop runs",
+      "DESIGN.md section 4 (C01)")
+
 UNDER = "check under construction in this round (specification and driver not committed yet)"
-for p in ["C01", "C05", "C06", "C07", "C08", "C09", "C13", "C15", "C17", "C18", "C19", "C20"]:
+for p in ["C05", "C06", "C07", "C08", "C09", "C13", "C15", "C17", "C18", "C19", "C20"]:
     NA[p] = UNDER
 NA["C16"] = ("arbitrary-byte crash/hang freedom of parsers has no abstract state machine to specify; deciding it means fuzzing, "
              "a different technique (DESIGN.md section 9)")
